@@ -95,11 +95,11 @@ def execute(scn):
     budget = 8 * len(data) + 40 * len(scn.get("decisions", scn.get("sched", {}).get("aims", ()))) + 800
     st = W.Stream(kind, data, decider, budget, rawbuf=scn.get("rawbuf", 64))
     o = scn["opts"]
-    kw, calls = W.make_handler(o.get("handler"))
+    kwf, calls = W.make_handler(o.get("handler"))
     viol = None
     events = []
     try:
-        rd = RTCMReader(st.obj, validate=1, quitonerror=o["quitonerror"], labelmsm=o.get("labelmsm", 1), parsed=True, bufsize=scn.get("bufsize", 4096), **kw)
+        rd = RTCMReader(st.obj, validate=1, quitonerror=o["quitonerror"], labelmsm=o.get("labelmsm", 1), parsed=True, bufsize=scn.get("bufsize", 4096), **kwf())
         events = W.drive(rd, st, scn.get("driver", "iterate"), scn.get("max_none", 0))
     except SimBudgetExceeded as e:
         viol = violation(PROP, "non-termination", str(e))
